@@ -319,6 +319,10 @@ def w_cases(cases, rep):
 
 
 def build_items(tier, seed):
+    # "quick" runs what used to be the thorough tier (it is cheap); "thorough" (deep) adds every timing class for every relay
+    # configuration, the second population with every length, and the pre-histories under four timing classes
+    deep = tier == "thorough"
+    tier = "thorough"
     cases = []
     k = 0
     # (multicast_relay on a level-4 node: there is no next level - whatever it does, no node of another level may get the frame)
@@ -333,7 +337,7 @@ def build_items(tier, seed):
                         continue  # multicast() on a node that itself has multicasting off is not specified
                     lens = LENGTHS
                     for mlen in lens:
-                        tsel = timing if tier == "thorough" and ri == 0 else [timing[0], timing[(k * 5 + 1) % len(timing)]]
+                        tsel = timing if ri == 0 or deep else [timing[0], timing[(k * 5 + 1) % len(timing)]]
                         for (c, l) in dict.fromkeys(tsel):
                             if mlen > 24 and l == 2:
                                 l = 0  # unacknowledged fragment bursts need a polling application
@@ -362,7 +366,7 @@ def build_items(tier, seed):
                     for allow_off in (None, O("3"), O("25")):
                         if allow_off == src or (allow_off is not None and relays not in ([], rl2)):
                             continue
-                        for mlen in (5, 25, 144):
+                        for mlen in ((0, 5, 24, 25, 48, 49, 144) if deep else (5, 25, 144)):
                             k += 1
                             cases.append(dict(src=src, level=lvl, relays=list(relays), allow_off=allow_off, mlen=mlen, mtype=TYPES[k % len(TYPES)],
                                               cost=k % 4, lat=k % 2, seed=seed, id0=(k * 131) & 0xFFFF, topo=1))
@@ -405,6 +409,12 @@ def build_items(tier, seed):
                         cases[-1]["lat"] = 2  # 2 ms poll latency: both frames are in the RX FIFO when update() runs
                     if any("same-type" in x[1] for x in pre):
                         cases[-1]["mtype"] = 7  # (a user type that is neither relayed specially nor network-acknowledged)
+                    if deep:
+                        for (c2, l2) in ((1, 0), (2, 1), (3, 0)):
+                            if (c2, l2) != (cases[-1]["cost"], cases[-1]["lat"]) and not any(x[1] == "multicast-burst" for x in pre):
+                                base_case = cases[-1] if "pre" in cases[-1] and cases[-1]["pre"] == [list(x) for x in pre] else None
+                                if base_case is not None:
+                                    cases.insert(len(cases) - 1, dict(base_case, cost=c2, lat=l2 if base_case["mlen"] <= 24 else 0))
     return [cases[i:i + 25] for i in range(0, len(cases), 25)]
 
 
@@ -419,9 +429,9 @@ def run(tier, seed, rep, only=None):
         rule="every sender class (master, first child 0o1, another level-1 node, levels 2, 3, 4) x target level {default,0..4} x relay configuration "
              "(off / on at exactly one node of levels 1-3 / on everywhere) x allow_multicast off at one node x message length x timing classes on a "
              "populated 5-level tree of 9 real nodes; plus 14 pre-histories (delivered / failed unicast, node-address re-assignment at sender, receiver, relay; earlier multicast / unicast of the same type not yet dequeued; back-to-back multicasts; a relay whose application queue is full) "
-             "before the multicast; every message length 0..144 (quick: step 5) and every message type outside the network's own (quick: user types, step 5) per sender x level; "
-             "thorough: a second population (full level 1 incl. child digit 5, sparse levels 2-4) x relay configurations x allow_multicast off; non-trivial = distinct case (every case transmits or must transmit).",
-        bounds=dict(topology2=["%o" % a for a in TOPO2] if tier == "thorough" else [], topology=["%o" % a for a in TOPO], senders=["%o" % a for a in SENDERS], levels=[str(x) for x in LEVELS], lengths=list(LENGTHS), types=list(TYPES)),
+             "before the multicast; every message length 0..144 and every message type outside the network's own per sender x level; overridden multicast levels on receivers / relays / senders; "
+             "a second population (full level 1 incl. child digit 5, sparse levels 2-4) x relay configurations x allow_multicast off; non-trivial = distinct case (every case transmits or must transmit).",
+        bounds=dict(tier_note="quick = one rotating extra timing class per relay configuration, second population at 3 lengths; thorough = all 12 timing classes everywhere, second population at 7 lengths, pre-histories under 4 timing classes", topology2=["%o" % a for a in TOPO2], topology=["%o" % a for a in TOPO], senders=["%o" % a for a in SENDERS], levels=[str(x) for x in LEVELS], lengths=list(LENGTHS), types=list(TYPES)),
         trusted_base=["vf/sim.py", "vf/net.py"],
         assumptions=["loss-free medium; a receiver whose RX FIFO overflowed, or a run with an on-air collision between relays, is excused from the "
                      "'received by all' clause (multicasts are unacknowledged) but never from the safety clauses"],
